@@ -37,6 +37,7 @@ CONSTANTS Cfg0,         \* [buses |-> <<[name, parallel, maxhist]..>>, handlers 
           WithErrors,   \* handlers may raise
           WithIdle,     \* drivers may call wait_until_idle
           WithSleep,    \* handlers may sleep for a (non-zero) time in addition to zero-time yields
+          TimeoutTypes, \* event types created with a handler timeout (a set; {} = no timeouts)
           KeepLog       \* keep the sequence of emitted lines (spec->code replay of simulated behaviours); FALSE when model checking
 
 VARIABLES
@@ -70,7 +71,7 @@ Tasks == {RL(b) : b \in B} \cup {HT(a) : a \in 1..MaxAct} \cup {XT(k) : k \in 1.
 
 
 T0 == [pc |-> "none", b |-> "", e |-> 0, h |-> "", owner |-> NoTask, kids |-> <<>>, aw |-> 0, bud |-> 0, holds |-> FALSE,
-       fb |-> "", fe |-> 0, todo |-> <<>>, fh |-> "", fa |-> 0, out |-> "", lvl |-> 0, born |-> 0]
+       fb |-> "", fe |-> 0, todo |-> <<>>, fh |-> "", fa |-> 0, out |-> "", lvl |-> 0, born |-> 0, canc |-> FALSE, tout |-> FALSE]
 Ev0 == [ty |-> "", par |-> 0, path |-> <<>>, sig |-> FALSE, proc |-> FALSE, res |-> <<>>, lvl |-> 0]
 
 \* asyncio starts new tasks in creation order (create_task -> call_soon, FIFO): `born` numbers tasks by creation
@@ -239,7 +240,8 @@ RLPollIdle(b) ==  \* 0.1 s poll timeout: idle flag set when nothing is queued / 
 ProcBeginFx(t, b, e, E0) ==
   IF GuardTrips(E0, hist, b, e) THEN [ok |-> FALSE, E |-> E0, todo |-> <<>>]
   ELSE LET hs == Applicable(E0, hist, b, e) IN [ok |-> TRUE, E |-> [E0 EXCEPT ![e] = AddPending(@, hs, b)], todo |-> hs]
-ProcLine(a, t, b, e) == Line(a) @@ [b |-> b, e |-> e, n |-> -1, exc |-> "RuntimeError", ok |-> TaskLabelKind(t), oa |-> IF FrameOwner(t)[1] = "h" THEN FrameOwner(t)[2] ELSE 0]
+ProcLineX(a, t, b, e, x) == Line(a) @@ [b |-> b, e |-> e, n |-> -1, exc |-> x, ok |-> TaskLabelKind(t), oa |-> IF FrameOwner(t)[1] = "h" THEN FrameOwner(t)[2] ELSE 0]
+ProcLine(a, t, b, e) == ProcLineX(a, t, b, e, "RuntimeError")
 
 RLEnter(b, T, sem, dep, lq) ==  \* common tail of RLBegin (lock acquired) and RLGranted: process_event is entered (probe line ProcB)
   LET t == RL(b)  e == task[t].e IN
@@ -397,14 +399,73 @@ SyncReturn(t) ==   \* back in execute_handler: result recorded, then `await moni
   /\ UNCHANGED <<nev, q, unf, shut, hist, running, idle, semv, depth, lockq, nact, nx, o>>
 
 \* the owner resumes after its handler task finished: result recorded, monitor cancelled and awaited (one hop)
+\* cancel every pending result of the children of e, transitively (event_cancel_pending_child_processing, A.9)
+RECURSIVE CancelPending(_, _, _)
+CancelPending(E, e, seen) ==
+  IF e \in seen THEN E
+  ELSE LET kids == AllKidsOf(E[e])
+           E1 == [x \in DOMAIN E |-> IF x \in kids
+                                     THEN [E[x] EXCEPT !.res = [i \in DOMAIN E[x].res |-> IF E[x].res[i].st = "pending"
+                                                                                          THEN [E[x].res[i] EXCEPT !.st = "error", !.err = "Cancelled:pending"]
+                                                                                          ELSE E[x].res[i]]]
+                                     ELSE E[x]]
+           RECURSIVE Fold(_, _)
+           Fold(EE, S) == IF S = {} THEN EE ELSE LET c == CHOOSE c \in S : TRUE IN Fold(CancelPending(EE, c, seen \cup {e}), S \ {c})
+       IN Fold(E1, kids)
+
 OwnerResume(t) ==
   /\ cur = NoTask /\ task[t].pc = "hdone"
   /\ LET b == task[t].fb  e == task[t].fe  a == task[t].fa
          out == task[HT(a)].out IN
-     /\ ev' = [ev EXCEPT ![e] = IF out = "raise" THEN SetRes(@, task[t].fh, b, "error", "E:a" \o ToString(a), "none")
-                                ELSE SetRes(@, task[t].fh, b, "completed", "", "none")]
-     /\ task' = [task EXCEPT ![t].pc = "mon"]
+     IF out # "cancel"
+     THEN /\ ev' = [ev EXCEPT ![e] = IF out = "raise" THEN SetRes(@, task[t].fh, b, "error", "E:a" \o ToString(a), "none")
+                                     ELSE SetRes(@, task[t].fh, b, "completed", "", "none")]
+          /\ task' = [task EXCEPT ![t].pc = "mon"]
+     ELSE IF task[t].tout
+     THEN \* this level's wait_for expired: TimeoutError result, pending results of the children cancelled, next handler goes on
+          /\ ev' = CancelPending([ev EXCEPT ![e] = SetRes(@, task[t].fh, b, "error", "Timeout", "none")], e, {})
+          /\ task' = [task EXCEPT ![t].pc = "mon", ![t].tout = FALSE]
+     ELSE \* merely interrupted by an enclosing timeout: "interrupted" error, the exception keeps travelling (monitor hop first)
+          /\ ev' = [ev EXCEPT ![e] = SetRes(@, task[t].fh, b, "error", "Cancelled:interrupted", "none")]
+          /\ task' = [task EXCEPT ![t].pc = "monx"]
   /\ UNCHANGED <<nev, q, unf, shut, hist, running, idle, semv, depth, lockq, nact, nx, cur, o>>
+
+\* the interrupted owner's process_event is abandoned: no WAL line, no completion mark, no task_done (finding F5)
+OwnerAbandon(t) ==
+  /\ cur = NoTask /\ task[t].pc = "monx" /\ t[1] = "h"
+  /\ o' = Obs(ProcLineX("ProcX", t, task[t].fb, task[t].fe, "Cancelled"), ev, nev, hist, q)
+  /\ task' = [task EXCEPT ![t].pc = "cancelled", ![t].fe = 0, ![t].fb = "", ![t].fh = "", ![t].fa = 0, ![t].todo = <<>>]
+  /\ UNCHANGED <<nev, ev, q, unf, shut, hist, running, idle, semv, depth, lockq, nact, nx, cur>>
+
+\* handler timeouts (A.9): wait_for expires while the innermost handler of the chain is in a timed sleep
+RECURSIVE Chain(_)
+Chain(a) == IF task[HT(a)].pc = "waith" /\ task[HT(a)].fa # 0 THEN <<a>> \o Chain(task[HT(a)].fa) ELSE <<a>>
+TimeoutFire(t) ==
+  /\ cur = NoTask /\ task[t].pc = "waith" /\ t[1] # "x" /\ task[t].fa # 0
+  /\ ev[task[t].fe].ty \in TimeoutTypes
+  /\ ~task[t].canc
+  /\ LET ch == Chain(task[t].fa)  inner == Last(ch) IN
+     /\ task[HT(inner)].pc = "sleep"
+     /\ task' = [u \in Tasks |->
+                   IF u = t THEN [task[u] EXCEPT !.tout = TRUE]
+                   ELSE IF u[1] = "h" /\ InSeq(u[2], ch)
+                        THEN [task[u] EXCEPT !.canc = TRUE, !.pc = IF u[2] = inner THEN "cancelled" ELSE @]
+                        ELSE task[u]]
+  /\ UNCHANGED <<nev, ev, q, unf, shut, hist, running, idle, semv, depth, lockq, nact, nx, cur, o>>
+
+\* the cancelled handler's code sees CancelledError at its suspension point (await child / sleep) and ends
+HCancelAw(a) ==
+  /\ cur = NoTask /\ a <= nact /\ task[HT(a)].pc = "cancelled" /\ task[HT(a)].aw # 0
+  /\ o' = Obs(Line("AwE") @@ [act |-> a, e |-> task[HT(a)].aw, canc |-> TRUE, same |-> TRUE], ev, nev, hist, q)
+  /\ task' = [task EXCEPT ![HT(a)].aw = 0]
+  /\ cur' = HT(a)
+  /\ UNCHANGED <<nev, ev, q, unf, shut, hist, running, idle, semv, depth, lockq, nact, nx>>
+HCancelExit(a) ==
+  /\ a <= nact /\ task[HT(a)].pc = "cancelled" /\ task[HT(a)].aw = 0 /\ cur \in {NoTask, HT(a)}
+  /\ o' = Obs(Line("HExit") @@ [act |-> a, out |-> "cancel"], ev, nev, hist, q)
+  /\ task' = [task EXCEPT ![HT(a)].pc = "done", ![HT(a)].out = "cancel", ![task[HT(a)].owner].pc = "hdone"]
+  /\ cur' = NoTask
+  /\ UNCHANGED <<nev, ev, q, unf, shut, hist, running, idle, semv, depth, lockq, nact, nx>>
 
 \* tail of process_event (WAL off): mark complete, walk up the parents, history cleanup (probe line ProcE)
 XTasksOf(t) == {k \in 1..nx : task[XT(k)].owner = t /\ task[XT(k)].pc # "free"}
@@ -509,7 +570,7 @@ InlineTake(a, b) ==
 \* can some other task take a step without time passing?  (1000 zero-sleeps exhaust all of those)
 ZeroTimeRunnable(t) ==
   \E u \in Tasks \ {t} :
-     \/ task[u].pc \in {"new", "got", "granted", "hdone", "mon", "yield", "spin", "xnew", "idle_yield"}
+     \/ task[u].pc \in {"new", "got", "granted", "hdone", "mon", "monx", "cancelled", "yield", "spin", "xnew", "idle_yield"}
      \/ task[u].pc = "pwait" /\ \A k \in XTasksOf(u) : task[XT(k)].pc = "done"
      \/ u[1] = "rl" /\ task[u].pc = "poll" /\ q[u[2]] # <<>>
      \/ u[1] = "d" /\ task[u].pc = "xaw" /\ ev[task[u].aw].sig
@@ -573,11 +634,11 @@ DAwaitEnd(i) ==        \* the waiter is woken some hops after the signal was set
   /\ UNCHANGED <<nev, ev, q, unf, shut, hist, running, idle, semv, depth, lockq, nact, nx, cur>>
 
 \* wait_until_idle (A.10), phases: join -> flag -> yield -> recheck (-> flag ...)
-DIdleBegin(i, b) ==
+DIdleBegin(i, b, timed) ==   \* timed: the call has a timeout argument; when it expires the call returns normally (the TimeoutError is caught inside)
   /\ WithIdle /\ DRun(i)
-  /\ task' = [task EXCEPT ![DT(i)].bud = @ - 1, ![DT(i)].pc = "idle_start", ![DT(i)].b = b]
+  /\ task' = [task EXCEPT ![DT(i)].bud = @ - 1, ![DT(i)].pc = "idle_start", ![DT(i)].b = b, ![DT(i)].tout = timed]
   /\ cur' = DT(i)
-  /\ o' = Obs(Line("IdleB") @@ [d |-> i, b |-> b, tmo |-> -1], ev, nev, hist, q)
+  /\ o' = Obs(Line("IdleB") @@ [d |-> i, b |-> b, tmo |-> IF timed THEN 0 ELSE -1], ev, nev, hist, q)
   /\ UNCHANGED <<nev, ev, q, unf, shut, hist, running, idle, semv, depth, lockq, nact, nx>>
 DIdleStart(i) ==   \* wait_until_idle() begins with _start(); then it suspends in wait_for(queue.join())
   /\ cur = DT(i) /\ task[DT(i)].pc = "idle_start"
@@ -595,6 +656,11 @@ DIdleFlag(i) ==
   /\ cur = NoTask /\ task[DT(i)].pc = "idle_flag" /\ idle[task[DT(i)].b]
   /\ task' = [task EXCEPT ![DT(i)].pc = "idle_yield"]
   /\ UNCHANGED <<nev, ev, q, unf, shut, hist, running, idle, semv, depth, lockq, nact, nx, cur, o>>
+DIdleTimeout(i) ==   \* the timeout of a timed wait_until_idle() expires in any of its waiting phases
+  /\ cur = NoTask /\ task[DT(i)].tout /\ task[DT(i)].pc \in {"idle_join", "idle_flag"}
+  /\ task' = [task EXCEPT ![DT(i)].pc = "run", ![DT(i)].b = "", ![DT(i)].tout = FALSE]
+  /\ o' = Obs(Line("IdleE") @@ [d |-> i, b |-> task[DT(i)].b, exc |-> "", qn |-> Len(q[task[DT(i)].b])], ev, nev, hist, q)
+  /\ UNCHANGED <<nev, ev, q, unf, shut, hist, running, idle, semv, depth, lockq, nact, nx, cur>>
 DIdleRecheck(i) ==
   /\ cur = NoTask /\ task[DT(i)].pc = "idle_yield"
   /\ LET b == task[DT(i)].b IN
@@ -603,7 +669,7 @@ DIdleRecheck(i) ==
           /\ task' = [task EXCEPT ![DT(i)].pc = "idle_flag"]
           /\ o' = o
      ELSE /\ idle' = idle
-          /\ task' = [task EXCEPT ![DT(i)].pc = "run", ![DT(i)].b = ""]
+          /\ task' = [task EXCEPT ![DT(i)].pc = "run", ![DT(i)].b = "", ![DT(i)].tout = FALSE]
           /\ o' = Obs(Line("IdleE") @@ [d |-> i, b |-> b, exc |-> "", qn |-> Len(q[b])], ev, nev, hist, q)
   /\ UNCHANGED <<nev, ev, q, unf, shut, hist, running, semv, depth, lockq, nact, nx, cur>>
 
@@ -611,7 +677,8 @@ DIdleRecheck(i) ==
 NextCore ==
   \/ \E b \in B : RLStart(b) \/ RLTake(b) \/ RLPollIdle(b) \/ RLBegin(b) \/ RLGranted(b)
   \/ \E t \in Tasks : SyncFinish(t, "ret") \/ SyncFinish(t, "raise") \/ SyncReturn(t) \/ (\E b \in B : \E ty \in Range(Types) : SyncDispatch(t, b, ty))
-  \/ \E t \in Tasks : ParStart(t)
+  \/ \E t \in Tasks : ParStart(t) \/ OwnerAbandon(t) \/ TimeoutFire(t)
+  \/ \E a \in 1..MaxAct : HCancelAw(a) \/ HCancelExit(a)
   \/ \E k \in 1..MaxAct : XStart(k) \/ XEnd(k)
   \/ \E t \in Tasks : FwdReturn(t) \/ OwnerAbort(t) \/ ProcSelect(t) \/ OwnerNext(t) \/ OwnerResume(t) \/ OwnerTail(t) \/ OwnerEpilogue(t)
   \/ \E a \in 1..MaxAct :
@@ -621,7 +688,8 @@ NextCore ==
         \/ \E k \in 1..MaxEv : HAwaitBegin(a, k)
   \/ \E i \in 1..NDrv :
         \/ DAwaitEnd(i) \/ DIdleStart(i) \/ DIdleJoin(i) \/ DIdleFlag(i) \/ DIdleRecheck(i)
-        \/ \E b \in B : DIdleBegin(i, b) \/ \E ty \in Range(Types) : DDispatch(i, b, ty)
+        \/ DIdleTimeout(i)
+        \/ \E b \in B : DIdleBegin(i, b, FALSE) \/ \E ty \in Range(Types) : DDispatch(i, b, ty)
         \/ \E k \in 1..MaxEv : DAwaitBegin(i, k)
 
 Next == NextCore /\ UNCHANGED Cfg /\ hlog' = IF KeepLog /\ o'.nl # o.nl THEN Append(hlog, o'.lastln) ELSE hlog
